@@ -295,7 +295,13 @@ class UnionMarshaller(AbstractMarshaller[UnionT], tp.Generic[UnionT]):
         self.nullable = inspection.isoptionaltype(t)
         if self.nullable:
             # `None` is passed through below, its (no-op) routine would accept anything.
-            self.stack = (*(a for a in self.stack if a not in (None, type(None))),)
+            self.stack = (
+                *(
+                    a
+                    for a in self.stack
+                    if not inspection.isnonetype(inspection.unwrap(a))
+                ),
+            )
         self.ordered_routines = [self.context[typ] for typ in self.stack]
 
     def __call__(self, val: UnionT) -> serdes.MarshalledValueT:
